@@ -259,20 +259,25 @@ def audit(modules, prop):
             os.remove(path)
         except OSError:
             pass
-    thms = {}
+    thms, auto = {}, {}
     for m in re.finditer(r"THM (\S+) AXIOMS \[(.*?)\]", out, flags=re.S):
         axs = [a.strip() for a in m.group(2).replace("\n", " ").split(",") if a.strip()]
-        thms[m.group(1)] = axs
+        if AUTO_LEMMA.search(m.group(1)):
+            # equation / induction lemmas Lean generates on demand for definitions: audited, not counted as obligations
+            auto[m.group(1)] = axs
+        else:
+            thms[m.group(1)] = axs
     problems = []
     if rc != 0:
         problems.append("audit file failed to elaborate: " + out[-400:])
-    for t, axs in thms.items():
+    for t, axs in list(thms.items()) + list(auto.items()):
         bad = [a for a in axs if a not in ALLOWED_AXIOMS]
         if bad:
             problems.append(f"theorem {t} depends on non-standard axioms {bad}")
     return thms, problems
 
 
+AUTO_LEMMA = re.compile(r"\.(eq_def|eq_\d+|induct|induct_unfolding|fun_cases|fun_cases_unfolding|congr_simp|sizeOf_spec|injEq|inj|match_\d+\.\w+|proof_\d+|_proof_\d+|_unary\S*|_mutual\S*)$")
 FORBIDDEN = re.compile(r"\b(sorry|admit|native_decide|bv_decide|implemented_by|unsafe)\b|^\s*axiom\s|maxHeartbeats 0", re.M)
 
 
